@@ -171,6 +171,24 @@ CLAIMED = {
             "samples, the serial write / connect / close machine, and validates traces recorded from the real modules, with exact rational "
             "comparison of map on Fraction arguments and a stated 1e-9 tolerance on floats.",
             "Trusted: TLC, the recorders. Bounded to dyadic grid values and the generated histories. Two known deviations matched exactly.", "DESIGN.md §5 C20"),
+    "C10": ("model_checking",
+            "TLA+ spec Session model-checked by TLC; TLC-enumerated session schedules executed in fresh interpreters per hash seed (incl. split parse/emit "
+            "and, thorough, two threads); event traces (script, sha256 of the C++, module-state equality) validated by TLC (SessionTrace)",
+            "TLC exhaustively checks Session (OneDigestPerScript, KnownStable, SeedFixedWhileAlive) and enumerates every schedule of <= 4 emit(parse()) "
+            "calls and every complete split parse/emit schedule over 3-subsets of a 54-script promotion-heavy corpus x 8 (thorough 16) hash seeds; each "
+            "schedule runs in a fresh interpreter with that PYTHONHASHSEED and the recorded events are validated with named clauses "
+            "(digest-differs-across-seeds, digest-depends-on-history, module-state-mutated).",
+            "Trusted: TLC, sha256, the module-state snapshot (bindings named _verif* are the hook's own log). Bounded by the corpus, seeds and schedule "
+            "length; platform ordering exercised only through PYTHONHASHSEED on one CPython build.", "DESIGN.md §5 C10"),
+    "C11": ("exploration",
+            "TLA+ specs Sandbox (allowed audit events) and Pipeline (outcome classes) checked by TLC; TLC-enumerated slot x payload stimuli plus stdlib "
+            "sources, fragments and hypothesis noise run in pooled audited workers with a CPU watchdog; traces validated by TLC",
+            "TLC enumerates 72 syntactic slots x 79 hostile or odd payloads, each script carrying canaries; every input runs in a worker with "
+            "sys.addaudithook installed before Reduino is imported, a 2 s CPU watchdog and an address-space limit; the trace (audit events with "
+            "compile-flag kind, outcome class, time bucket, canary, module-state equality) is validated by SandboxTrace / PipelineTrace with total "
+            "verdicts naming the forbidden effect or outcome; beyond the grid: interpreter stdlib sources, function fragments and hypothesis noise.",
+            "Effects are detected only through the PEP 578 audit hook, the canaries and the snapshots; 'promptly' = <= 2 s CPU; 'not Python' = CPython's "
+            "compile() refuses the text. Exploration: beyond the enumerated grid coverage is seeded sampling.", "DESIGN.md §5 C11"),
 }
 NOT_YET = {}
 
